@@ -195,6 +195,8 @@ type Outcome struct {
 }
 
 type Exec struct {
+	fieldOverride map[string]*Term // fields of named opaque objects that a theory entry defines
+	opaqueLens map[*OpaqueVal]*Term
 	rawKeys  bool // key-layout audit: key constructors are executed, not abstracted
 	adapt    map[string]*loopAdapt // loops whose invariants were adapted to the code (adapt.go)
 	prog     *Program
@@ -383,6 +385,9 @@ func (x *Exec) opaqueField(c *OpaqueVal, pe pathElem) Val {
 	}
 	f := stt.Field(pe.field)
 	name := c.Name + "." + f.Name()
+	if t, ok := x.fieldOverride[name]; ok {
+		return t
+	}
 	if s := SortOf(f.Type()); s != nil {
 		return Sym(name, s)
 	}
@@ -986,6 +991,14 @@ func (x *Exec) step(f *Frame, st *State, ins ssa.Instruction) bool {
 			}
 			x.errorf("symbolic index into Go-side slice")
 			return false
+		case *OpaqueVal:
+			// element of an unmodelled list (e.g. the unpacked arguments of an EVM log): in range or panic, content unknown
+			ln := x.opaqueLen(st, pv)
+			x.panicSite(f, st, Or(Lt(idx, IntLit(0)), Ge(idx, ln)), "index out of range at "+x.pos(in.Pos()))
+			et := in.Type().(*types.Pointer).Elem()
+			o := x.newObj(et, "opaque_elem")
+			st.mem[o] = x.freshVal(st, et, "elem")
+			f.regs[in] = &PtrVal{Obj: o}
 		default:
 			x.errorf("IndexAddr on %T", p)
 			return false
@@ -1880,4 +1893,18 @@ func (x *Exec) materializePtr(st *State, v Val, t types.Type) Val {
 	st.mem[o] = SelField(tm, 1)
 	x.assumed["A-PTRFIELD: a message-typed pointer field is read as an optional value (pointee not shared)"] = true
 	return &PtrVal{Obj: o, Nil: SelField(tm, 0)}
+}
+
+// opaqueLen: the (unknown but fixed) length of an unmodelled list value.
+func (x *Exec) opaqueLen(st *State, v *OpaqueVal) *Term {
+	if x.opaqueLens == nil {
+		x.opaqueLens = map[*OpaqueVal]*Term{}
+	}
+	if t, ok := x.opaqueLens[v]; ok {
+		return t
+	}
+	t := x.freshTerm("opaque_len", SInt)
+	st.assume(Ge(t, IntLit(0)))
+	x.opaqueLens[v] = t
+	return t
 }
